@@ -530,18 +530,18 @@ func parseContent(contentMap map[string]any) (Content, error) {
 
 // parseTextContent parses text content
 func parseTextContent(contentMap map[string]any) (Content, error) {
-	text := extractString(contentMap, "text")
-	if text == "" {
+	text, ok := contentMap["text"].(string)
+	if !ok {
 		return nil, fmt.Errorf("text is missing")
 	}
-	return NewTextContent(text), nil
+	return NewTextContent(text), nil // an empty text is a text
 }
 
 // parseImageContent parses image content
 func parseImageContent(contentMap map[string]any) (Content, error) {
-	data := extractString(contentMap, "data")
-	mimeType := extractString(contentMap, "mimeType")
-	if data == "" || mimeType == "" {
+	data, okData := contentMap["data"].(string)
+	mimeType, okMime := contentMap["mimeType"].(string)
+	if !okData || !okMime {
 		return nil, fmt.Errorf("image data or mimeType is missing")
 	}
 	return NewImageContent(data, mimeType), nil
@@ -598,7 +598,8 @@ func parseResourceContents(contentMap map[string]any) (ResourceContents, error) 
 
 	mimeType := extractString(contentMap, "mimeType")
 
-	if text := extractString(contentMap, "text"); text != "" {
+	// The field that is present decides the kind; its value may be empty.
+	if text, ok := contentMap["text"].(string); ok {
 		return TextResourceContents{
 			URI:      uri,
 			MIMEType: mimeType,
@@ -606,7 +607,7 @@ func parseResourceContents(contentMap map[string]any) (ResourceContents, error) 
 		}, nil
 	}
 
-	if blob := extractString(contentMap, "blob"); blob != "" {
+	if blob, ok := contentMap["blob"].(string); ok {
 		return BlobResourceContents{
 			URI:      uri,
 			MIMEType: mimeType,
